@@ -145,10 +145,15 @@ def worker(args):
     fails, sample, sigs = [], None, set()
     stats = {"cases": 0, "fits": 0, "children": 0}
     for _ in range(max(1, n // (4 if tier == "quick" else 8))):
-        r = c01.gen(rng)
-        r["ds"] = fitgen.gen_dataset(rng, target=r["meta"]["target"], kinds=rng.sample(["cont", "disc", "ord", "cat", "cont", "cat"], rng.randint(2, 4)))
-        if not r["ds"]["ok_target"]:
+        # the configuration is drawn for the generated dataset itself (fitgen.gen_config): the thresholds of the crafted
+        # family of C01 (min_freq 0.02) on continuous features mean 50 quantiles and millions of candidate groupings
+        target = rng.choice(["binary", "binary", "continuous"])
+        ds = fitgen.gen_dataset(rng, target=target, kinds=rng.sample(["cont", "disc", "ord", "cat", "cont", "cat"], rng.randint(2, 4)))
+        if not ds["ok_target"]:
             continue
+        cfg = fitgen.gen_config(rng, target)
+        r = {"ds": ds, "meta": {"what": "carver", "target": target, "cfg": cfg, "kinds": ds["kinds"], "n": len(ds["X"]),
+                                "dev": ds["X_dev"] is not None}}
         stats["cases"] += 1
         fs = check_case(rng, r, stats, tier)
         for f in fs:
